@@ -105,6 +105,18 @@ class C13(SeqProp):
                     dict(case, ops=case["ops"][: i + 1]),
                 )
             )
+        # a Local channel declared with an initial target HAS that target (so that its first
+        # pulse is accepted): an accepted declaration must not drop it
+        if op["op"] == "declare" and exc is None and op.get("initial_target") is not None and op["name"] in seq._schedule:
+            cs = seq._schedule[op["name"]]
+            it = op["initial_target"]
+            want = set(it) if isinstance(it, (list, tuple)) else {it}
+            if cs.channel_obj.addressing == "Local":
+                got = set(cs.slots[-1].targets) if cs.slots else None
+                if got != want:
+                    v.append(Violation("declared-initial-target-not-set",
+                                       f"declare_channel({op['name']!r}, initial_target={it!r}) accepted, channel targets {got}",
+                                       dict(case, ops=case["ops"][: i + 1])))
         st["mode"] = mode_of(seq)
         return v
 
